@@ -247,6 +247,27 @@ def pops_in(t: T, event: T) -> List[str]:
     return out
 
 
+def _only_iterated(value, raws) -> bool:
+    """The raw value takes part in `value` only as the thing iterated over (a comprehension's source, the elements of a loop):
+    a falsy, i.e. empty, raw value then gives an empty result, which is what an absent field reads as."""
+    seen_iter = [False]
+    def go(t, under_iter):
+        if t in raws:
+            if under_iter:
+                seen_iter[0] = True
+                return True
+            return False
+        if t.op == "elem":
+            return go(t.a[0], True) if isinstance(t.a[0], T) else True
+        if t.op == "comp":
+            ok = go(t.a[1], False)
+            for elem, it, conds in t.a[2]:
+                ok = ok and go(it, True) and all(go(c, False) for c in conds)
+            return ok
+        return all(go(x, False) for x in sym.children(t))
+    return go(value, False) and seen_iter[0]
+
+
 def _conjuncts(pc):
     """The path condition with positive conjunctions (and negated disjunctions) taken apart."""
     out = []
@@ -315,7 +336,7 @@ def check_optional_keys(repo: Repo, run: Run, interp) -> None:
                 if key_dict is None:
                     continue
                 raw_read = T("sub", (key_dict[1], key_dict[0]))
-                if e.value.op == "comp" and len(e.value.a[2]) == 1 and e.value.a[2][0][1] in (raw_read, atom):
+                if _only_iterated(e.value, (raw_read, atom)):
                     continue        # a list built element by element from the raw list: an empty raw list gives the empty default
                 if sym.contains(e.value, raw_read) or sym.contains(e.value, atom):
                     run.ob("R12", mod.name, qn, f"field stored at line {e.lineno} when its raw key {key_dict[0].a[0]!r} is present", False,
